@@ -908,15 +908,17 @@ class ControlDependenceGraph(ProgramGraph):
         if (self.entry_node, node) in self.graph.edges:  # type: ignore[operator,unused-ignore]
             return True
         for pred in self.graph.predecessors(node):
-            if pred in visited:
-                continue
-            visited.add(pred)
+            # A dependency under a branch value ends the search along this edge only: the
+            # predecessor itself may still be reachable over another edge without branch value.
             if (
                 isinstance(pred, BasicBlockNode)
                 and self._graph.get_edge_data(pred, node).get(EDGE_DATA_BRANCH_VALUE, None)
                 is not None
             ):
                 continue
+            if pred in visited:
+                continue
+            visited.add(pred)
             if pred == node:
                 continue
             if self._is_control_dependent_on_root(pred, visited):
